@@ -19,6 +19,7 @@ CONSTANTS
   MaxOther = 2
   FirstCfgs = {0}
   StartCfgs = {0, 1}
+  PostReload = TRUE
   CfgKinds = {"value", "default"}
   Vias = {"set", "write", "read"}
 CONSTRAINT Bound
